@@ -249,9 +249,12 @@ class DocGen:
             calibrated = r.random() < 0.5
             if t.enc.default_cal is not None and not integral_poly(t.enc.default_cal):
                 calibrated = False   # a non-integral calibrated length is meaningless
-            form = r.randrange(4)
+            form = r.randrange(5)
             if form == 0 and unit_bits == 1:
                 return ir.DynLen(name, calibrated, None, None)
+            if form == 4:
+                # a LinearAdjustment that gives only an intercept: the omitted slope is the schema default 0, i.e. a constant size
+                return ir.DynLen(name, calibrated, None, unit_bits * r.randrange(max(1, min_units), 5))
             slope = r.choice([unit_bits, unit_bits, 2 * unit_bits, 16])
             if unit_bits > 1 and slope % unit_bits:
                 slope = unit_bits
@@ -293,7 +296,10 @@ class DocGen:
         if isinstance(L, int):
             L = L + ls
         elif isinstance(L, ir.DynLen):
-            L = ir.DynLen(L.ref, L.calibrated, L.slope if L.slope is not None else 8 * unit, (L.intercept or 0) + ls)
+            if L.slope is None and L.intercept is not None:
+                L = ir.DynLen(L.ref, L.calibrated, None, L.intercept + ls)
+            else:
+                L = ir.DynLen(L.ref, L.calibrated, L.slope if L.slope is not None else 8 * unit, (L.intercept or 0) + ls)
         else:
             L = ir.Lookup(tuple((c, v + ls) for c, v in L.entries))
         return ir.StrEnc(charset, L, leading_size=ls)
